@@ -37,7 +37,8 @@ type BCall struct {
 	Hi   int    `json:"hi"`
 	Par  int    `json:"par"`
 	Auto bool   `json:"auto"`
-	Own  bool   `json:"own,omitempty"` // found set = the index's own existence bitmap object
+	Own  bool   `json:"own,omitempty"`  // found set = the index's own existence bitmap object
+	More int    `json:"more,omitempty"` // BatchEqual*: this many additional scattered query values that no column can hold (off the value grid)
 }
 
 type BObs struct {
@@ -458,7 +459,9 @@ type bsiExec struct {
 	k      uint
 	big    bool
 	nc     int
-	colID  []uint64 // abstract column (1-based) -> concrete id; two trailing probe columns never set
+	colID  []uint64         // abstract column (1-based) -> concrete id; two trailing probe columns never set
+	extra  map[int][]uint64 // bulk traces: further concrete ids of an abstract column (a CLASS of columns that always hold the same value)
+	owner  map[uint64]int   // concrete id -> abstract column
 	slots  [4]index
 	auto   [4]bool
 	w      *bufio.Writer
@@ -480,32 +483,66 @@ func (e *bsiExec) unscale(v *big.Int) (int, bool) {
 	return int(q.Int64()), true
 }
 func (e *bsiExec) cols(abs []int) []uint64 {
-	out := make([]uint64, len(abs))
-	for i, a := range abs {
-		out[i] = e.colID[a-1]
+	out := make([]uint64, 0, len(abs))
+	for _, a := range abs {
+		out = append(out, e.colID[a-1])
+		out = append(out, e.extra[a]...)
 	}
 	return out
 }
+
+// absCols: a set of concrete columns as a set of abstract ones; other = it contains a column of no class, or only
+// part of a class
 func (e *bsiExec) absCols(conc []uint64) ([]int, bool) {
-	var out []int
-	other := false
-	for _, c := range conc {
-		found := false
+	if e.owner == nil {
+		e.owner = map[uint64]int{}
 		for i := 0; i < e.nc; i++ {
-			if e.colID[i] == c {
-				out = append(out, i+1)
-				found = true
+			e.owner[e.colID[i]] = i + 1
+			for _, c := range e.extra[i+1] {
+				e.owner[c] = i + 1
 			}
 		}
-		if !found {
+	}
+	hits := map[int]int{}
+	other := false
+	for _, c := range conc {
+		if a, ok := e.owner[c]; ok {
+			hits[a]++
+		} else {
 			other = true
 		}
 	}
-	sort.Ints(out)
-	if out == nil {
-		out = []int{}
+	out := []int{}
+	for a, n := range hits {
+		if n != 1+len(e.extra[a]) {
+			other = true
+		}
+		out = append(out, a)
 	}
+	sort.Ints(out)
 	return out, other
+}
+
+// offGrid: n distinct scattered values between the smallest and the largest value of the trace's domain that are no
+// multiples of 2^k: no column can hold them, so they match nothing (k >= 8 only)
+func (e *bsiExec) offGrid(n int) []*big.Int {
+	var out []*big.Int
+	if e.k < 8 || e.k > 62 {
+		return out
+	}
+	seen := map[string]bool{}
+	for len(out) < n {
+		a := int64(e.r.Intn(15) - 8)
+		off := 1 + e.r.Int63n(int64(1)<<e.k-1)
+		v := new(big.Int).Lsh(big.NewInt(a), e.k)
+		v.Add(v, big.NewInt(off))
+		if !seen[v.String()] {
+			seen[v.String()] = true
+			out = append(out, v)
+		}
+	}
+	e.r.Shuffle(len(out), func(i, j int) { out[i], out[j] = out[j], out[i] })
+	return out
 }
 
 func (e *bsiExec) newIndex(auto bool) index {
@@ -531,6 +568,7 @@ func (e *bsiExec) observe(s int) BObs {
 				o.Bad = fmt.Sprintf("read API panicked: %v", r)
 			}
 		}()
+		classExtra := 0
 		for a := 1; a <= len(e.colID); a++ {
 			c := e.colID[a-1]
 			v, ok := x.getBig(c)
@@ -549,8 +587,23 @@ func (e *bsiExec) observe(s int) BObs {
 				o.Ex = append(o.Ex, a)
 				o.V = append(o.V, [2]int{a, av})
 			}
+			if ms := e.extra[a]; len(ms) > 0 { // a class: sampled members (always the last one) must read like the first
+				for i := 0; i < 6; i++ {
+					m := ms[len(ms)-1]
+					if i > 0 {
+						m = ms[e.r.Intn(len(ms))]
+					}
+					mv, mok := x.getBig(m)
+					if mok != ok || (ok && mv.Cmp(v) != 0) || x.exists(m) != ok {
+						o.Bad = fmt.Sprintf("columns %d and %d were always written together but read differently", c, m)
+					}
+				}
+				if ok {
+					classExtra += len(ms)
+				}
+			}
 		}
-		o.Card = int(x.card())
+		o.Card = int(x.card()) - classExtra // a class counts as one column of the specification
 		if o.Bad == "" {
 			o.Bad = x.readCheck(e.colID)
 		}
@@ -639,7 +692,11 @@ func (e *bsiExec) do(ev *BEvent) {
 		// (for k = 70 the bounds do not fit NewBSI's int64 arguments: such indexes are always auto-sized)
 		e.auto[c.Dst] = c.Auto || (e.impl == 64 && e.k > 56)
 	case "BSetValue":
-		x.setValue(e.colID[c.Col-1], e.scale(c.Val))
+		if len(e.extra[c.Col]) > 0 {
+			x.setMany(e.cols([]int{c.Col}), e.scale(c.Val)) // a class is always written as a whole
+		} else {
+			x.setValue(e.colID[c.Col-1], e.scale(c.Val))
+		}
 	case "BSetMany":
 		x.setMany(cc, e.scale(c.Val))
 	case "BClear":
@@ -706,6 +763,7 @@ func (e *bsiExec) do(ev *BEvent) {
 		for i, v := range *c.Vals {
 			vals[i] = e.scale(v)
 		}
+		vals = append(vals, e.offGrid(c.More)...)
 		r1, other := e.absCols(x.batchEqual(c.Par, vals))
 		r2, _ := e.absCols(x.batchEqual(c.Par, vals))
 		ev.Ret = map[string]any{"cols": r1, "other": other, "indep": fmt.Sprint(r1) == fmt.Sprint(r2)}
@@ -714,6 +772,7 @@ func (e *bsiExec) do(ev *BEvent) {
 		for i, v := range *c.Vals {
 			vals[i] = e.scale(v)
 		}
+		vals = append(vals, e.offGrid(c.More)...)
 		ps, _ := x.batchEqualValues(c.Par, vals, cc, c.All)
 		pairs := [][2]int{}
 		other := false
@@ -820,11 +879,18 @@ func cmdBSI(args []string) {
 			continue
 		}
 		r := rand.New(rand.NewSource(*seed*104729 + int64(id)))
-		e := &bsiExec{w: w, tr: id, r: r, cover: map[string]int{}, nc: 6}
+		e := &bsiExec{w: w, tr: id, r: r, cover: map[string]int{}, nc: 6, extra: map[int][]uint64{}}
 		e.impl = pick(r, []int{32, 64, 64})
 		e.k = pick(r, []uint{0, 0, 0, 3, 7, 20, 31, 40, 55})
-		if e.impl == 64 && r.Intn(6) == 0 {
+		bulk := *prof == "bulk"
+		if bulk {
+			e.k = pick(r, []uint{20, 31, 40})
+			e.impl = pick(r, []int{32, 32, 64})
+		}
+		if e.impl == 64 && r.Intn(6) == 0 && !bulk {
 			e.k, e.big = 70, true
+		} else if e.impl == 64 && r.Intn(8) == 0 && !bulk {
+			e.k, e.big = 60, true // values fit int64, sums of several do not: the big-value API must stay exact
 		} else if e.impl == 64 && r.Intn(5) == 0 {
 			e.big = true
 		}
@@ -836,6 +902,23 @@ func cmdBSI(args []string) {
 		perm := r.Perm(len(pool))
 		for i := 0; i < e.nc+2; i++ {
 			e.colID = append(e.colID, pool[perm[i]])
+		}
+		if bulk {
+			// abstract column 6 is a CLASS of more than 100000 concrete columns (written and read as one): the index is
+			// large enough for the code paths that are chosen by size (linear scans, batched goroutine fan-out)
+			n := 100000 + r.Intn(40000)
+			base := uint64(200000 + r.Intn(1000000))
+			stride := uint64(1 + r.Intn(3))
+			taken := map[uint64]bool{}
+			for _, c := range e.colID {
+				taken[c] = true
+			}
+			for i := 0; len(e.extra[6]) < n; i++ {
+				c := base + uint64(i)*stride
+				if !taken[c] {
+					e.extra[6] = append(e.extra[6], c)
+				}
+			}
 		}
 		cv.Kinds[fmt.Sprintf("impl%d/k%d/big=%v/signed=%v", e.impl, e.k, e.big, signed)]++
 		e.emit(map[string]any{"op": "BU", "tr": id, "i": 0, "nc": e.nc, "impl": e.impl, "k": e.k, "big": e.big, "cols": e.colID})
@@ -881,11 +964,20 @@ func cmdBSI(args []string) {
 			}
 			return true
 		}
+		if bulk { // the class of 100000+ columns exists in slot 1 (and sometimes 2) from the start
+			e.run(BCall{Op: "BSetMany", X: 1, Cols: &[]int{6}, Val: val()})
+			if r.Intn(2) == 0 {
+				e.run(BCall{Op: "BSetMany", X: 2, Cols: &[]int{5, 6}, Val: val()})
+			}
+		}
 		for st := 0; st < *steps; st++ {
 			x := 1 + r.Intn(3)
+			if bulk && r.Intn(2) == 0 {
+				x = 1
+			}
 			par := pick(r, []int{0, 1, 2, 3, 16})
 			upd := r.Intn(10) < 6
-			if *prof == "query" {
+			if *prof == "query" || bulk {
 				upd = r.Intn(10) < 3
 			}
 			if upd {
@@ -897,7 +989,7 @@ func cmdBSI(args []string) {
 				case 5:
 					e.run(BCall{Op: "BClear", X: x, Cols: subset()})
 				case 6:
-					if e.impl == 64 {
+					if e.impl == 64 && !bulk { // (Retain reports a count of concrete columns)
 						e.run(BCall{Op: "BRetain", X: x, Cols: subset()})
 					}
 				case 7: // ParOr on pairwise disjoint column sets
@@ -990,10 +1082,14 @@ func cmdBSI(args []string) {
 				if r.Intn(3) == 0 { // a "cube": all values of a bit pattern
 					vs = []int{0, 1, 2, 3}
 				}
-				if e.impl == 64 && r.Intn(2) == 0 && !e.big {
-					e.run(BCall{Op: "BBatchEqualValues", X: x, Vals: &vs, Cols: fcols, All: all, Par: par})
+				more := 0
+				if e.k >= 8 && e.k <= 62 && (bulk || r.Intn(4) == 0) { // a long scattered query list (no further matches)
+					more = 128 + r.Intn(300)
+				}
+				if e.impl == 64 && r.Intn(2) == 0 && !e.big && !bulk {
+					e.run(BCall{Op: "BBatchEqualValues", X: x, Vals: &vs, Cols: fcols, All: all, Par: par, More: more})
 				} else {
-					e.run(BCall{Op: "BBatchEqual", X: x, Vals: &vs, Par: par})
+					e.run(BCall{Op: "BBatchEqual", X: x, Vals: &vs, Par: par, More: more})
 				}
 			case 5:
 				m := e.current(x)
@@ -1001,13 +1097,15 @@ func cmdBSI(args []string) {
 					e.run(BCall{Op: "BMinMax", X: x, Cmp: pick(r, []string{"MIN", "MAX"}), Cols: fcols, All: all, Par: par})
 				}
 			case 6:
-				e.run(BCall{Op: "BSum", X: x, Cols: fcols, All: all})
+				if !bulk { // (sums and counts are over concrete columns)
+					e.run(BCall{Op: "BSum", X: x, Cols: fcols, All: all})
+				}
 			case 7:
 				if allNonNeg(x) && (e.impl == 64 && e.k <= 55 || e.k <= 28) {
 					e.run(BCall{Op: "BTranspose", X: x, Cols: fcols, All: all, Par: par})
 				}
 			default:
-				if allNonNeg(x) && (e.impl == 64 && e.k <= 55 || e.k <= 28) {
+				if allNonNeg(x) && (e.impl == 64 && e.k <= 55 || e.k <= 28) && !bulk {
 					e.run(BCall{Op: "BTransposeCounts", X: x, Cols: fcols, All: all, Par: par})
 				}
 			}
